@@ -16,7 +16,7 @@ IG_T = [1e-3, T1("ig", [1e-4, 5e-4, 2e-3]), T2("ig", [[1e-4, 5e-4, 2e-3], [2e-4,
 # kind -> (section, mandatory {key: [forms]}, optional {key: [forms]})
 SCHEMA = {
     "Source": ("source", {"vo": [5.0, 5, -12.0]}, {"rs": [0.3, 1]}),
-    "PLoad": ("pload", {"pwr": [0.2, 1]}, {"pwrs": [0.01], "rt": [5.0, 3], "loss": [True]}),
+    "PLoad": ("pload", {"pwr": [0.2, 1, 0.0]}, {"pwrs": [0.01], "rt": [5.0, 3], "loss": [True]}),
     "ILoad": ("iload", {"ii": [0.1, 1, 0.4e-9]}, {"iis": [0.01, 1.2e-10], "rt": [5.0], "loss": [True]}),
     "RLoad": ("rload", {"rs": [40.0, 33]}, {"rt": [5.0], "loss": [True]}),
     "RLoss": ("rloss", {"rs": [0.7, 1]}, {"rt": [5.0, 2]}),
@@ -40,8 +40,15 @@ def workdir():
     return _wd()
 
 
-def write_toml(section, params, limits):
-    doc = {section: params}
+def write_toml(section, params, limits, extra_tables=False, permute=False):
+    if permute:  # inner keys of a table parameter in another legal order (z, io, vi)
+        params = {k: ({kk: v[kk] for kk in sorted(v, key=lambda x: {"vi": 2, "io": 1}.get(x, 0))} if isinstance(v, dict) else v) for k, v in params.items()}
+    doc = {}
+    if extra_tables:  # several component tables in ONE file: each kind reads its own
+        doc["source"] = {"vo": 99.0, "rs": 7.0} if section != "source" else {"vo": params.get("vo", 1.0)}
+        doc["rloss"] = {"rs": 77.0, "rt": 9.0}
+        doc["pswitch"] = {"rs": 3.0, "iis": 0.5}
+    doc[section] = params
     if limits is not None:
         doc["limits"] = limits
     path = os.path.join(workdir(), "c.toml")
@@ -98,7 +105,7 @@ def check_case(case):
     fam = case["fam"]
     res.stats["evaluations"] += 1
     if fam == "equiv":
-        path = write_toml(section, P, L)
+        path = write_toml(section, P, L, extra_tables=case.get("extra", False), permute=case.get("permute", False))
         try:
             c1 = KINDS[kind].from_file("X", fname=path)
         except Exception as e:
@@ -154,6 +161,8 @@ def gen_cases(tier):
                     P[k] = opt[k][0]
                 for L in (None, LIMITS):
                     yield dict(fam="equiv", kind=kind, P=P, L=L)
+                if r in (0, len(okeys)):
+                    yield dict(fam="equiv", kind=kind, P=P, L=LIMITS, extra=True)
         # every alternative form of every key, alone and with all optionals present
         for k, forms in list(mand.items()) + list(opt.items()):
             for fv in forms[1:]:
@@ -165,6 +174,8 @@ def gen_cases(tier):
                     if kind == "Rectifier" and k == "vdrop" and fv in (0, 0.0) and not full:
                         pass
                     yield dict(fam="equiv", kind=kind, P=P, L=LIMITS if full else None)
+                    if isinstance(fv, dict):
+                        yield dict(fam="equiv", kind=kind, P=P, L=None, permute=True)
         if tier != "quick":  # pairs of alternative forms
             allk = list(mand.items()) + list(opt.items())
             for (k1, f1), (k2, f2) in itertools.combinations(allk, 2):
